@@ -421,7 +421,9 @@ def conc_explorations(tier):
     rd = [{"shape": s, "modes": list(m)} for s in shapes for m in (("run", "dry"), ("dry", "run")) + ((("run", "render"), ("dry", "dry")) if tier != "quick" else ())]
     if tier == "quick":
         return [(rr, {"preempt": 1, "yield": 1}), (rd, {"preempt": 1, "yield": 0})]
-    return [(rr, {"preempt": 1, "yield": 2}), (rr, {"preempt": 2, "yield": 0}), (rd, {"preempt": 1, "yield": 1})]
+    # (budgets multiply: ~1200 preemption alternatives x ~150 blocking-point alternatives per execution)
+    return [(rr, {"preempt": 1, "yield": 1}), (rr, {"preempt": 0, "yield": 2}), (rr[:1], {"preempt": 2, "yield": 0}),
+            (rd, {"preempt": 1, "yield": 0}), (rd[:4], {"preempt": 1, "yield": 1})]
 
 
 def run(tier):
